@@ -116,6 +116,9 @@ def run_driver(name, args, timeout=1800, env=None):
 
 # --------------------------------------------------------------------------- TLC
 
+_meta_counter = 0
+
+
 class TlcResult:
     def __init__(self):
         self.rc = None
@@ -135,7 +138,9 @@ def tlc(spec_dir, module, cfg=None, workers=4, timeout=600, env=None, simulate=N
         coverage=True, heap="4g", dfs_queue=False, extra=None):
     """Run TLC on <spec_dir>/<module>.tla with <cfg>. Returns TlcResult."""
     os.makedirs(WORK, exist_ok=True)
-    meta = os.path.join(WORK, "tlc_meta_%d_%s" % (os.getpid(), module))
+    global _meta_counter
+    _meta_counter += 1
+    meta = os.path.join(WORK, "tlc_meta_%d_%d_%s_%d" % (os.getpid(), _meta_counter, module, int(time.time() * 1000) % 100000))
     shutil.rmtree(meta, ignore_errors=True)
     jopts = "-Xss512m -Xmx%s" % heap
     if dfs_queue:
